@@ -385,6 +385,8 @@ func Run(c *hx.Ctx) {
 			}
 		}
 	}
+	// the multiplex pool (mux.go)
+	runMux(c)
 	// overlapping ResetStream / DestroyStream calls on one real BaseStream, every interleaving (once.go)
 	runOnce(c)
 	// concurrent phase (support): books equal the truth again once concurrent leases, resets and closes have settled
